@@ -611,7 +611,7 @@ func c20shared(c *fw.Ctx) {
 			for i := range b {
 				b[i] = "000019a."[r.IntN(8)]
 			}
-			s = string(b)
+			s = capDigitRuns(string(b), c20maxDigits) // digit runs stay within the platform's int
 		}
 		L := len(s)
 		for i := 0; i <= L; i++ {
